@@ -42,6 +42,9 @@ def engine_call(cmd):
         return subprocess.run(cmd, stdout=subprocess.PIPE, stderr=subprocess.STDOUT, text=True, env=ENGINE_ENV)
 
 
+CURRENT_PROP = None
+
+
 def run_engine(run, tier, seed, workdir, idx):
     """one gosym process (one harness function, one parameter setting, one shard)"""
     out = os.path.join(workdir, "res_%s.json" % idx)
@@ -65,6 +68,10 @@ def run_engine(run, tier, seed, workdir, idx):
         cmd += ["-prefixdepth", str(run.get("sharddepth", 6)), "-workers", str(min(run["shards"], NCPU))]
     if "maxsteps" in run:
         cmd += ["-maxsteps", str(run["maxsteps"])]
+    if CURRENT_PROP:
+        # a harness family carries the assertions of several properties: only this property's are
+        # checked (and assumed); the others are skipped so that they cannot cut a path short
+        cmd += ["-prop", CURRENT_PROP]
     if run.get("solver"):
         cmd += ["-solver", run["solver"]]
     for k, v in sorted(run.get("params", {}).items()):
@@ -115,7 +122,15 @@ OS_KEEP = ("open ", "fallocate ", "pwrite ", "fsync ", "fsync-dir ", "unlink ", 
 def canon_engine_trace(tr):
     """engine OS trace -> comparable list (bbolt-internal and bookkeeping events dropped)"""
     out = []
+    dirty = set()  # database files holding a commit made with bbolt's fsyncs switched off and not synced since
     for e in tr or []:
+        w = e.split(" ")
+        if w[0] == "bolt-commit" and e.endswith("NOSYNC"):
+            dirty.add(w[1])
+        elif w[0] == "bolt-sync" and not e.endswith("FAILED"):
+            dirty.discard(w[1])
+        elif w[0] == "rename" and not e.endswith("FAILED") and w[1] in dirty:
+            out.append("unsynced-at-rename " + w[1])
         if not e.startswith(OS_KEEP):
             continue
         if ".db" in e and not e.startswith("rename "):
@@ -160,6 +175,7 @@ def strace_replay(pkg, case, engine_trace, timeout=300):
     env = dict(ENV, VRT_INPUTS=inp, VRT_EVENTS=os.path.join(d, "ev.txt"), VRT_TEMPDIR=tdir)
     rr = subprocess.run(cmd, cwd=HARNESS, env=env, stdout=subprocess.PIPE, stderr=subprocess.STDOUT, text=True)
     out = []
+    dbdirty = set()
     flagmap = {"O_RDWR": 2, "O_WRONLY": 1, "O_CREAT": 0x40, "O_EXCL": 0x80}
     if os.path.exists(log):
         for line in open(log):
@@ -188,12 +204,16 @@ def strace_replay(pkg, case, engine_trace, timeout=300):
                     out.append("open %s flags=%#x" % (rel(path), flags))
             elif sc in ("fsync", "fdatasync"):
                 pm = re.search(r"<([^>]+)>", args)
+                if pm and ".db" in pm.group(1) and ok:
+                    dbdirty.discard(pm.group(1))
                 if not pm or ".db" in pm.group(1):
                     continue
                 path = pm.group(1)
                 out.append(("fsync-dir " if path == tdir else "fsync ") + rel(path) + fail)
             elif sc == "pwrite64":
                 pm = re.search(r"<([^>]+)>", args)
+                if pm and ".db" in pm.group(1) and ok:
+                    dbdirty.add(pm.group(1))  # bbolt-internal I/O is not compared call by call, only "written and not fsynced since"
                 if not pm or ".db" in pm.group(1):
                     continue
                 a = args.rsplit(",", 2)
@@ -210,7 +230,12 @@ def strace_replay(pkg, case, engine_trace, timeout=300):
             elif sc in ("rename", "renameat", "renameat2"):
                 ps = re.findall(r'"([^"]+)"', args)
                 if len(ps) >= 2:
-                    out.append("rename %s %s%s" % (rel(ps[0]), rel(ps[1]), fail))
+                    if ok and ps[0] in dbdirty:
+                        out.append("unsynced-at-rename " + rel(ps[0]))
+                    if ok:
+                        out.append("rename %s %s" % (rel(ps[0]), rel(ps[1])))
+                    else:
+                        out.append("rename %s FAILED" % rel(ps[0]))
     shutil.rmtree(d, ignore_errors=True)
     shutil.rmtree(tdir, ignore_errors=True)
     return out, rr.stdout[-600:]
@@ -237,6 +262,8 @@ def main():
     if pid not in checks:
         print("no check registered for", pid)
         sys.exit(2)
+    global CURRENT_PROP
+    CURRENT_PROP = pid
     chk = checks[pid]
     known = json.load(open(os.path.join(ROOT, "known_findings.json")))["findings"]
     known_here = {f["id"]: f for f in known if f["property"] == pid and f["status"] == "known"}
@@ -246,8 +273,8 @@ def main():
     runs = [dict(r) for r in chk["runs"][tier] if not (args.only and args.only not in r["fn"])]
     workdir = tempfile.mkdtemp(prefix="chk_%s_" % pid, dir=os.path.join(ROOT, ".work"))
     results = [None] * len(runs)
-    small = [i for i, r in enumerate(runs) if r.get("shards", 1) <= 1]
-    big = [i for i, r in enumerate(runs) if r.get("shards", 1) > 1]
+    small = [i for i, r in enumerate(runs) if r.get("shards", 1) <= 1 and not r.get("heavy")]
+    big = [i for i, r in enumerate(runs) if r.get("shards", 1) > 1 or r.get("heavy")]  # heavy: tens of GB of memory, runs alone
     with cf.ThreadPoolExecutor(max_workers=NCPU) as ex:
         futs = {i: ex.submit(run_engine, runs[i], tier, seed, workdir, i) for i in small}
         for i, f in futs.items():
